@@ -27,9 +27,11 @@ K_NAME = ('K_helpers (Funcs.observe over PrimFloat / Z vs fsic.functions.lag/lea
 RULE = ('helpers: every array length 0..6 (thorough 0..9) x every shift -n-2..n+2 x fill values {nan, -1.0, 0.0, inf} x lag/lead/diff/dlog '
         'x data variants (positive, with zero/negative/nan, int64 with int fills, int64 with float fills nan/inf/1.5/-1.5/2.0/-0.0), plus rank-0/rank-2 arguments — exhaustive at that bound; '
         'expressions: random arithmetic over container variables, helper calls, positional indexes/slices and backticked label '
-        'indexes/slices (open ends, steps, missing labels, whitespace) over range / str list / int list / NumPy int+str / pandas Index / '
+        'indexes/slices (open ends, steps, missing labels, whitespace), mixed label/integer slices, labels that do not stand alone in their '
+        'bracket (nested list subscript, parentheses, slice broken across lines), caller locals shadowing a helper AND a variable in the same '
+        'expression, labels outside Latin-1 (oracle only) over range / str list / int list / NumPy int+str / pandas Index / '
         'PeriodIndex Y+Q spans, plus a systematic catalogue (79 label brackets x 51 positional brackets per span type: every bracket alone, '
-        'label x positional pairs: all in thorough, 500 per span type in quick); raw strings: all strings up to length 4 (thorough 5) over an 8-symbol bracket alphabet + random longer ones; '
+        'label x positional pairs: all in thorough, 300 per span type in quick); raw strings: all strings up to length 4 (thorough 5) over an 8-symbol bracket alphabet + random longer ones; '
         'namespace: every subset pattern of {locals, variable, helper/builtins=} for the queried name; int(): each of the 256 Latin-1 '
         'codes as left / right / inner padding of a digit string + random digit/sign/underscore/space strings. Non-trivial = helper call on a '
         'non-empty array, an expression with a bracket or a helper call, a raw string containing "[", any namespace/sem case; distinct by hash.')
@@ -46,7 +48,10 @@ ASSUMPTIONS = ['arrays are float64 or int64 (int64 with int fills through Funcs.
                'running CPython on every run (case kind int: each of the 256 Latin-1 codes as padding)',
                'index_sem reads a subscript item with int()\'s grammar; Python\'s literal grammar differs on leading zeros (007), repeated signs (--1) '
                'and non-ASCII whitespace: the sem cases validate canonical spellings only, which is what the rewriter writes',
-               'the tie to label indexing imports the model of property C10 (Locate/Locate.v, Locate/LocateFacts.v)']
+               'the tie to label indexing imports the model of property C10 (Locate/Locate.v, Locate/LocateFacts.v)',
+               'expressions or labels with characters outside Latin-1 are outside the Coq model (strings are lists of 8-bit characters): '
+               'for them only the direct oracle speaks (K is skipped); a mixed slice such as X[`a`:3] is compared by K only '
+               '(the statement does not say whether the integer end is inclusive; the model proves it is: C16_mixed_label_start_int_stop)']
 EXHAUSTIVE = {'quick': True, 'thorough': True}
 SOURCES = ['functions.py', 'core/containers.py']
 CASE_TIMEOUT = 30
@@ -778,7 +783,7 @@ def gen_text(rng, tier):
              'X[`zz`]', 'X[`a`:`zz`]', 'X[`1\x1f`]', 'X[`\x1f1`]', 'X[+1\x1f`]', 'X[`\xa011\x85`]', 'X[` 1 `:`\t11\x0c`]', 'X[`1\x1c`:`a`]', 'X[`a`:`11\x1d`]', 'X[`1`1`]', 'X[`1`1`:`a`]', 'X[`a`1`]', 'X[``11``]', 'X[`1``1`]', 'X[1:2:3:4]', 'X[`a`:`1`:2:]', 'X[`a`:`1`: 2 : ]`', 'X[Y[0]]`', 'X[[0]]`', '[[`a`]]', 'X[`a`][`1`]', 'X[:-1] + Y[`a`]', 'X[1:3] + Y[`a`]', 'X[a-1] + Y[`a`]']
     cases += [{'kind': 'text', 'span': TEXT_SPAN, 's': s} for s in extra]
     pool = TEXT_ALPHABET + ['`a`', '`1`', '`11`', '`zz`', '`1\x1f`', '`\x1c1`', '`\xa01`', '` 1 `', '`1\x85`', '`\t11`', '\x1f`', '`\x1e', '-1', '+1', '1_1', ' : ', '[', ']', '\t', '_', '-', '+', '0', '2', 'X', '\x0c', '\xa0', '\x85', '\x1f', '(', ')', ',']
-    for _ in range(1500 if tier == 'quick' else 40000):
+    for _ in range(1000 if tier == 'quick' else 40000):
         s = ''.join(rng.choice(pool) for _ in range(rng.randint(3, 14)))
         cases.append({'kind': 'text', 'span': TEXT_SPAN, 's': s})
     # duplicate labels: list span resolves to the first match, NumPy span refuses (KeyError)
@@ -892,7 +897,7 @@ def gen_enum(rng, tier):
             cases.append(mk(('sub', ('var', 'X'), br)))
         pairs = [(b1, b2) for b1 in pos_br for b2 in lab_br]
         if tier == 'quick':
-            pairs = rng.sample(pairs, 500)
+            pairs = rng.sample(pairs, 300)
         for k, (b1, b2) in enumerate(pairs):
             l, r = ('sub', ('var', 'X'), b1), ('sub', ('var', 'Y'), b2)
             cases.append(mk(('bin', '+', l, r) if k % 2 == 0 else ('bin', '*', r, l)))
@@ -905,7 +910,7 @@ def gen_int(rng, tier):
         ch = chr(c)
         out += [ch + '1', '1' + ch, ch + '12' + ch, '1' + ch + '2', '-' + ch + '1', ch + '-1', ch]
     pool = list('0123456789') + ['+', '-', '_', ' ', '\t', '\n', '\x0b', '\x0c', '\r', '\x1c', '\x1d', '\x1e', '\x1f', '\x85', '\xa0', 'a', '.', '1', '0', '_']
-    for _ in range(600 if tier == 'quick' else 6000):
+    for _ in range(400 if tier == 'quick' else 6000):
         out.append(''.join(rng.choice(pool) for _ in range(rng.randint(0, 7))))
     seen, cases = set(), []
     for t in out:
@@ -944,7 +949,7 @@ def gen(rng, tier):
     cases += gen_sem(rng, tier)
     cases += gen_int(rng, tier)
     cases += gen_text(rng, tier)
-    n_expr = 3000 if tier == 'quick' else 150000
+    n_expr = 2000 if tier == 'quick' else 150000
     for i in range(n_expr):
         r = rng.random()
         opts = {'undef': r < 0.15, 'd0': 0.15 <= r < 0.2, 'locals': 0.2 <= r < 0.3}
